@@ -279,6 +279,27 @@ func memDirected(rng *RNG) []Case {
 			}
 			cases = append(cases, Case{Tag: "directed:mount-copy", Lines: lines})
 		}
+		// the same bytes under two media types: what a tag serves is the manifest as it is stored now
+		for _, order := range [][2]string{{"m1", "img-param"}, {"img-param", "m1"}, {"opaque-param", "opaque-upper"}} {
+			first, second := byName[order[0]], byName[order[1]]
+			data := first.data
+			lines := []string{fmt.Sprintf("mem init %d", imm)}
+			for _, bl := range u.blobs {
+				lines = append(lines, linePushBlob("a", "application/octet-stream", sha256Digest(bl), int64(len(bl)), bl))
+			}
+			lines = append(lines,
+				linePushManifest("a", "t", data, first.mt),
+				linePushManifest("a", "", data, second.mt),
+				fmt.Sprintf("mem gettag %s %s", tok("a"), tok("t")),
+				fmt.Sprintf("mem resolvetag %s %s", tok("a"), tok("t")),
+				fmt.Sprintf("mem getmanifest %s %s", tok("a"), tok(sha256Digest(data))),
+				fmt.Sprintf("mem resolvemanifest %s %s", tok("a"), tok(sha256Digest(data))),
+				linePushManifest("a", "t2", data, second.mt),
+				fmt.Sprintf("mem gettag %s %s", tok("a"), tok("t")),
+				fmt.Sprintf("mem gettag %s %s", tok("a"), tok("t2")),
+				fmt.Sprintf("mem resolvetag %s %s", tok("a"), tok("t2")))
+			cases = append(cases, Case{Tag: "directed:retype", Lines: lines})
+		}
 		// a committed upload's session lives on: cancelling it and writing to it again from the start
 		// must not reach the blob that was committed from it
 		for _, second := range []string{"HELLO", "HEL", "HELLO-and-more"} {
@@ -702,9 +723,12 @@ func memOracle(c Case, impl []string, wire bool) []Failure {
 					notFound("MANIFEST_UNKNOWN")
 					break
 				}
-				ok, _, rdg, _, rdata := parseRead(got)
+				ok, rmt, rdg, _, rdata := parseRead(got)
 				if !ok || rdg != string(d.Digest) || rdata != string(m.data) {
 					fail("mem-tag-resolves", "tag_resolves_last_push", "read of the tagged manifest")
+				} else if !wire && rmt != m.mt {
+					// reading through a tag is reading the manifest the binding names, as it is stored now
+					fail("mem-tag-read-mediatype", "tag_read_is_the_manifest_entry", "media type "+m.mt+" (what GetManifest reports for the same digest)")
 				}
 			}
 		case "pushmanifest":
